@@ -76,7 +76,7 @@ MIXED = {
  "C08": "Proved by pyvc+z3: shm Manager.__init__/add/purge/page_out(+callback)/page_in(+callback)/get/close_callback against contracts over the WHOLE dataset map with the ghost aggregate 'used' "
         "(sum of in-memory sizes <= capacity preserved by every operation, nothing but the named key changes; 348 VCs). Assumed: Manager.page_out_at_least (6 of its 29 VCs time out) and the victim lottery. ",
  "C09": "Proved by pyvc+z3: Manager.is_pageoutable/get/close_callback/purge/page_out callback - a dataset with a live reader is never chosen or unlinked, delayed purge happens at the last close (283 VCs); Disk._page_out - the manager is told exactly once, last; success is reported, and the segment unlinked, only after the WHOLE buffer "
-        "of that segment was written to its spill file (opened for writing) and the file closed; nothing escapes the pool thread (18 VCs). ",
+        "of that segment was written to its spill file (opened for writing) and the file closed; nothing escapes the pool thread; Disk._page_in - success only after a new segment named after the dataset was created, its spill file opened for reading and the chunks read copied into the segment's buffer back to back from offset 0, each at full length (loop invariant over the event log, any number of chunks) - 42 VCs. ",
  "C10": "Proved by pyvc+z3: executor.runner.runner.run - the callable is invoked once, first, with every static argument and every upstream value (Memory.provide of the declared source) in its declared "
         "position / under its declared name and nothing else; one output: the result is stored under it; several outputs: the j-th yielded value is stored under the j-th declared output in key order, "
         "one store per output, and a count mismatch raises (task failure); low.func.ensure (84 VCs, loop invariants for every number of arguments / outputs). graph2job/node2task stay bounded. ",
